@@ -81,6 +81,8 @@ fn main() {
         "C02" => props::c02::check(&ctx),
         "C03" => props::c03::check(&ctx),
         "C04" => props::c04::check(&ctx),
+        "C05" => props::c05::check(&ctx),
+        "C06" => props::c06::check(&ctx),
         "C13" => props::c13::check(&ctx),
         _ => {
             eprintln!("unknown property {prop}");
